@@ -292,6 +292,15 @@ def errD : Err → DecProg.Err
   | .ctx => .io .eof
   | .other => .io .eof
 
+theorem CD.adv {chk : Bool} {s : St} {st : DecProg.St} (h : CD chk s st) (k : Nat) (hl : k ≤ s.rest.length) :
+    CD chk (adv s k) { st with cur := st.cur + k, crc := if chk = true then write st.crc (s.rest.take k) else st.crc } := by
+  have hsm := h.small
+  refine ⟨h.chk, ?_, ?_, ?_, ?_⟩
+  · simp only [Link.adv]; rw [h.cur, Nat.mod_eq_of_lt (by omega)]
+  · simp only [Link.adv, h.chk, h.crc]
+  · simp only [Link.adv, List.length_drop]; rw [Nat.mod_eq_of_lt (by omega)]; omega
+  · exact IsBytes.drop' h.bytes _
+
 /-- the observable does not tell the two end-of-stream errors apart, and looks at the events only -/
 def EofBlind {β : Type} (obs : DecProg.Out → β) : Prop :=
   ∀ (st st' : DecProg.St) (e e' : ReadBuffer.RErr), st'.evs = st.evs →
